@@ -22,6 +22,7 @@ type Batch struct {
 	options        BatchOptions          // 批处理配置
 	mu             sync.RWMutex          // 批处理互斥锁, 保证批处理本身并发安全
 	committed      bool                  // 已提交标识
+	piecesOnDisk   bool                  // 已有部分数据因缓存溢出提前写入磁盘, 提交时必须追加完成标识记录
 	batchID        snowflake.ID          // 批次唯一ID
 	cachedDataSize int64                 // 当前已缓存数据量
 }
@@ -217,7 +218,9 @@ func (b *Batch) Commit() error {
 	// 提交后允许操作 DB 实例
 	defer b.db.mu.Unlock()
 
-	if len(b.staged) == 0 {
+	// 暂存为空但已有部分数据提前写入磁盘时(例如溢出刷新成功而随后的 Put 失败), 仍须写入完成标识记录,
+	// 否则提交返回成功而这些数据在重启后全部失效
+	if len(b.staged) == 0 && !b.piecesOnDisk {
 		return nil
 	}
 
@@ -310,6 +313,9 @@ func (b *Batch) flushStaged() error {
 	}
 	if len(dataPos) != len(b.staged) {
 		panic("chunk positions length is not equal to pending writes length")
+	}
+	if len(b.staged) > 0 {
+		b.piecesOnDisk = true
 	}
 
 	// 根据配置判断是否立即持久化
